@@ -75,6 +75,14 @@ func KFDefs() []KFDef {
 				"a":    "let g = 0;\npub fn p(x: int) -> int {\n    let x1 = x * 2;\n    x + x1\n}\nfn main() {}\n",
 			}, false, TagMangle, TagMultiModule),
 		},
+		{
+			Name: KFCapture,
+			What: "renameVariables numbers the locals of all functions from one shared table while walking the functions in map order: a function literal that reads a local of its parent gets the parent's slot number or a fresh one depending on which of the two is visited first (`16` or `41` printed for the same program; the source says 36)",
+			Sig:  "^(code|vm-output|vm-hostcalls|vm-outcome|process-outcome):",
+			Tag:  TagCapture,
+			Witness: witness("w-capture", map[string]string{"main": "fn mk(p: int) -> int {\n    let a = 10;\n    let b = 20;\n    let c = p;\n    let f = fn(k: int) -> int { k + c + b };\n    f(1) + a\n}\nfn main() {\n    println(mk(5));\n}\n"},
+				false, TagCapture),
+		},
 	}
 }
 
